@@ -83,6 +83,11 @@ CHECKS = {
     technique='runtime monitoring: metamorphic comparison of the real loader across all compression assignments of one logical tree; WriteAudit-identified rewritten Manifests checked against the watermark rule after real saves at and around every Manifest size',
     text='meta: one logical tree (consistent or mutated) is rendered with all 5**k (sampled to 25 in quick) format assignments of its sub-Manifests; keep-going verification results, reported paths, find_path_entry and find_dist_entry results must be identical. wm: sequences of 2..4 saves with watermark 0 / size-1 / size / size+1 / max+1, each target format, forced or after a dirtying update: every sub-Manifest the audit hook saw rewritten must be compressed iff its uncompressed size >= watermark, compressed ones keep their format, the top-level Manifest is never compressed, one file per logical Manifest, no dangling reference, and a fresh verification succeeds.',
     note='Trusted: independent reader/writer, the audit hook for "rewritten". Directories with several Manifest-named files are excluded (U14).'),
+ 'C11': dict(
+    category='exploration', design='3 C11',
+    technique='runtime monitoring: replica comparison (incremental vs full `gemato update`) over histories with os.utime-controlled mtimes under tzset-switched timezones; scan hook recording the first-scanned instant and injecting a modification right after a file was hashed',
+    text='Two replicas live through the same 1..4 (quick) / 1..6 (thorough) rounds of add/delete/modify/touch with mtimes placed older than, equal to, 1 s / 30 min / 1 h / 10 h after the previous TIMESTAMP (read back from the Manifest), one updated incrementally, one fully, under TZ in {UTC, XXX-8, XXX8, XXX-5:30, XXX12}: Manifests must be equal apart from TIMESTAMP whenever every same-size change ends up newer than the TIMESTAMP; a TIMESTAMP written by an update must not be later than the instant the hook saw the first file scanned (also when the previous TIMESTAMP lay in the future); a file modified by the hook right after it was hashed must be picked up by the next incremental run.',
+    note='Timezones sampled, no DST rules. Same-size changes not newer than the TIMESTAMP are unconstrained (U4). Assumes the system clock does not step during a run.'),
 }
 
 def main():
